@@ -447,6 +447,9 @@ class C08Executor(readfile.ReadFileExecutor):
         return hasattr(v, "ref") and st.obj(v.ref).kind == "unk" and st.ghost.get(("growing", v.ref))
 
     def get_attr(self, st, base, attr, node):
+        from pyvc.values import VMod
+        if isinstance(base, VMod) and ("bind", base.name, attr) in st.ghost:
+            return [(st, st.ghost[("bind", base.name, attr)])]       # a name this activation has (re)bound in that module
         if attr in self._LIST_GROW and self._grown_list(st, base):
             return [(st, VFunc("bound", base, attr))]        # a list of unknown content: append & co. are total
         if attr == "close" and isinstance(base, VUnk):
@@ -1234,6 +1237,86 @@ def m_pdf_pages(ex, st, obj):
     return VUnk("pages")
 
 
+# ---- PDF: installing the built-in AES into pypdf (patch_pypdf_fallback_aes) --------------------------------
+AESFB = X + "pdf/_pypdf_aes_fallback.py"
+AES_PRIMS = ("aes_ecb_encrypt", "aes_ecb_decrypt", "aes_cbc_encrypt", "aes_cbc_decrypt")
+# ASSUMED view of the installed pypdf (validated natively on every run, see `validate_views`): the modules that hold their
+# OWN binding of the AES primitives (`from ... import aes_cbc_decrypt, ...` executed at import time) and of the one CryptAES class.
+PYPDF_AES_IMPORTERS = ("pypdf._crypt_providers._fallback", "pypdf._crypt_providers", "pypdf._encryption")
+FALLBACK_PROVIDER = "local_crypt_fallback"
+PROVIDER = z3.String("pypdf_crypt_provider_name")
+PyClass = ext_sort("PyClass")
+CRYPTAES_CLASS = z3.Const("pypdf_CryptAES_class", PyClass)      # one class object, bound under the same name in every importer
+
+
+def _setattr_module(ex, st, base, attr, v, node):
+    st.ghost[("bind", base.name, attr)] = v
+    return [st]
+
+
+def _setattr_class(ex, st, base, attr, v, node):
+    st.ghost[("classattr", base.t.get_id(), attr)] = v
+    return [st]
+
+
+def aes_patch_contract(reg):
+    reg.ext_models[("setattr", "mod")] = _setattr_module
+    reg.ext_models[("setattr", "PyClass")] = _setattr_class
+    reg.ext_models[("const", "pypdf._crypt_providers.crypt_provider")] = VTuple([VStr(PROVIDER), VUnk("provider_version")])
+    for m in PYPDF_AES_IMPORTERS:
+        reg.ext_models[("const", f"{m}.CryptAES")] = VExt("PyClass", CRYPTAES_CLASS)
+
+    def bound(c, mod, name):
+        return c.st.ghost.get(("bind", mod, name))
+
+    def is_builtin_prim(v, name):
+        return isinstance(v, VFunc) and v.how == "repo" and v.a == AESFB and v.b == name
+
+    def method_uses(v, callee):
+        """v is a function defined inside the patch function whose body calls the built-in `callee` (or None: any body)."""
+        if not (isinstance(v, VFunc) and v.how == "closure" and isinstance(v.a, ast.FunctionDef)):
+            return False
+        return callee is None or any(isinstance(n, ast.Call) and dotted(n.func) == callee for n in ast.walk(v.a))
+
+    def installed(c):
+        """Every importer resolves the four primitives to the built-in AES, and its CryptAES to a class whose
+        __init__/encrypt/decrypt were replaced by functions of the patch that use the built-in CBC primitives."""
+        missing = []
+        for mod in PYPDF_AES_IMPORTERS:
+            for n in AES_PRIMS:
+                if not is_builtin_prim(bound(c, mod, n), n):
+                    missing.append(f"{mod}.{n}")
+            cls = bound(c, mod, "CryptAES") or VExt("PyClass", CRYPTAES_CLASS)
+            if not (isinstance(cls, VExt) and cls.sort == "PyClass"):
+                missing.append(f"{mod}.CryptAES")
+                continue
+            for meth, callee in (("__init__", None), ("encrypt", "aes_cbc_encrypt"), ("decrypt", "aes_cbc_decrypt")):
+                if not method_uses(c.st.ghost.get(("classattr", cls.t.get_id(), meth)), callee):
+                    missing.append(f"{mod}.CryptAES.{meth}")
+        c.note = ("still bound to pypdf's raising stubs after patch_pypdf_fallback_aes() returned True: " + ", ".join(missing)) if missing else ""
+        return not missing
+
+    def untouched(c):
+        return not any(isinstance(k, tuple) and k and k[0] in ("bind", "classattr") for k in c.st.ghost)
+
+    def post(c):
+        r = c.result
+        if not isinstance(r, VBool) or r.const() is None:
+            return z3.BoolVal(False)
+        if r.const():
+            return z3.And(PROVIDER == sv(FALLBACK_PROVIDER), z3.BoolVal(installed(c)))
+        return z3.And(PROVIDER != sv(FALLBACK_PROVIDER), z3.BoolVal(untouched(c)))
+
+    t = f"{AESFB}::patch_pypdf_fallback_aes"
+    return FnContract(
+        target=t, params=[], raises=[],
+        result_maker=lambda ex, st, ctx: VBool(z3.Bool(fresh_name("patched"))),
+        ensures=[("true-iff-fallback-provider-and-then-every-importer-of-the-aes-names-is-rebound",
+                  lambda c: post(c) if isinstance(c.result, VBool) and c.result.const() is not None else z3.BoolVal(True))],
+        note="returns True exactly on pypdf's fallback provider, and then aes_{ecb,cbc}_{encrypt,decrypt} and CryptAES resolve to the "
+             "built-in AES in EVERY pypdf module that bound them at import time (incl. pypdf._encryption, which does the password check)")
+
+
 def pdf_contracts(reg):
     for k in ("pypdf.PdfReader", "PdfReader"):
         reg.ext_models[("new", k)] = new_pdfreader
@@ -1241,10 +1324,7 @@ def pdf_contracts(reg):
     reg.attr_models[("PdfReader", "pages")] = m_pdf_pages
     reg.method_models[("PdfReader", "decrypt")] = m_pdf_decrypt
     out = []
-    out.append(FnContract(
-        target=X + "pdf/_pypdf_aes_fallback.py::patch_pypdf_fallback_aes", assumed=True, params=[], raises=[],
-        result_maker=lambda ex, st, ctx: VBool(z3.Bool(fresh_name("patched"))),
-        note="ASSUMED total: rebinding of pypdf's AES hooks (the AES itself is C20's subject)"))
+    out.append(aes_patch_contract(reg))
     t = f"{PDF}::_open_pdf_reader"
     out.append(FnContract(
         target=t, params=[("file_like", p_ext("BytesIO"))], modifies=("file_like",),
